@@ -9,11 +9,14 @@ package interp
 import (
 	"fmt"
 	"go/types"
+	"math"
 	"sort"
 	"strconv"
 	"strings"
 
 	"golang.org/x/tools/go/ssa"
+
+	"gosx/smt"
 )
 
 func registerFmt() {
@@ -349,7 +352,7 @@ func (i *interpreter) formatValue(fr *frame, sp spec, t types.Type, v value, dep
 			case s.k == types.Bool:
 				v = i.truth(s)
 			case kindFloat(s.k):
-				panic(pathEnd{kind: "unsupported", msg: "formatting a symbolic float"})
+				v = i.concretiseFloat(s)
 			default:
 				v = i.concretise(s, "fmt %"+string(sp.verb))
 			}
@@ -465,4 +468,19 @@ func (i *interpreter) formatField(fr *frame, sp spec, t types.Type, v value, dep
 		return i.formatArg(fr, sp, iface{t, v}, depth)
 	}
 	return i.formatValue(fr, sp, t, v, depth)
+}
+
+// concretiseFloat forks a symbolic float into its special classes (NaN, infinities,
+// zeros); any other value must be unique on the path, otherwise formatting it is
+// outside the model.
+func (i *interpreter) concretiseFloat(s sym) value {
+	c := i.ctx
+	if s.k != types.Float64 {
+		panic(pathEnd{kind: "unsupported", msg: "formatting a symbolic float32"})
+	}
+	if i.decide(c.FpPred(smt.OFpIsNaN, s.t)) {
+		return math.NaN()
+	}
+	bits := i.floatBits(s)
+	return math.Float64frombits(i.concretiseTerm(bits, "float formatted as text"))
 }
